@@ -1313,6 +1313,248 @@ func apply(p *packages.Package, f *ast.File, fd *ast.FuncDecl, tr string) int {
 			blk.List = out
 			return true
 		}, nil)
+	case "flag2counter":
+		// ok := true; … ok = false …; if ok / !ok   →   n := 0; … n++ …; if n == 0 / n > 0
+		uses := map[types.Object]int{}
+		for _, o := range info.Uses {
+			uses[o]++
+		}
+		ast.Inspect(fd.Body, func(nd ast.Node) bool {
+			def, ok := nd.(*ast.AssignStmt)
+			if !ok || def.Tok != token.DEFINE || len(def.Lhs) != 1 || len(def.Rhs) != 1 {
+				return true
+			}
+			lhs, ok := def.Lhs[0].(*ast.Ident)
+			if !ok || info.Defs[lhs] == nil {
+				return true
+			}
+			if id, ok := def.Rhs[0].(*ast.Ident); !ok || id.Name != "true" {
+				return true
+			}
+			obj := info.Defs[lhs]
+			var clears []*ast.AssignStmt
+			var reads []*ast.Ident
+			seen := 0
+			okAll := true
+			astutil.Apply(fd.Body, func(c *astutil.Cursor) bool {
+				switch x := c.Node().(type) {
+				case *ast.FuncLit:
+					ast.Inspect(x, func(m ast.Node) bool {
+						if id, ok := m.(*ast.Ident); ok && info.Uses[id] == obj {
+							okAll = false
+						}
+						return true
+					})
+					return false
+				case *ast.AssignStmt:
+					if len(x.Lhs) == 1 && len(x.Rhs) == 1 && x.Tok == token.ASSIGN {
+						if id, ok := x.Lhs[0].(*ast.Ident); ok && info.Uses[id] == obj {
+							if v, ok := x.Rhs[0].(*ast.Ident); ok && v.Name == "false" {
+								clears = append(clears, x)
+								seen++
+							} else {
+								okAll = false
+							}
+							return false
+						}
+					}
+				case *ast.Ident:
+					if info.Uses[x] != obj {
+						return true
+					}
+					// read positions: operand of !, &&, ||, or the whole condition of an if
+					switch p := c.Parent().(type) {
+					case *ast.UnaryExpr:
+						if p.Op != token.NOT {
+							okAll = false
+						}
+					case *ast.BinaryExpr:
+						if p.Op != token.LAND && p.Op != token.LOR {
+							okAll = false
+						}
+					case *ast.IfStmt:
+						if c.Name() != "Cond" {
+							okAll = false
+						}
+					case *ast.ParenExpr:
+					default:
+						okAll = false
+					}
+					reads = append(reads, x)
+					seen++
+				}
+				return true
+			}, nil)
+			if !okAll || len(clears) == 0 || len(reads) == 0 || seen != uses[obj] {
+				return true
+			}
+			def.Rhs[0] = &ast.BasicLit{Kind: token.INT, Value: "0"}
+			astutil.Apply(fd.Body, func(c *astutil.Cursor) bool {
+				switch x := c.Node().(type) {
+				case *ast.AssignStmt:
+					for _, cl := range clears {
+						if cl == x {
+							c.Replace(&ast.IncDecStmt{X: ast.NewIdent(lhs.Name), Tok: token.INC})
+							return false
+						}
+					}
+				case *ast.UnaryExpr:
+					if id, ok := ast.Unparen(x.X).(*ast.Ident); ok && x.Op == token.NOT {
+						for _, r := range reads {
+							if r == id {
+								c.Replace(&ast.ParenExpr{X: &ast.BinaryExpr{X: ast.NewIdent(lhs.Name), Op: token.GTR, Y: &ast.BasicLit{Kind: token.INT, Value: "0"}}})
+								return false
+							}
+						}
+					}
+				case *ast.Ident:
+					for _, r := range reads {
+						if r == x {
+							c.Replace(&ast.ParenExpr{X: &ast.BinaryExpr{X: ast.NewIdent(lhs.Name), Op: token.EQL, Y: &ast.BasicLit{Kind: token.INT, Value: "0"}}})
+							return false
+						}
+					}
+				}
+				return true
+			}, nil)
+			n++
+			return true
+		})
+	case "labelcontinue":
+		// for … { …; found := false; for … { if c { found = true; break } }; if !found { REST } }
+		//   →   L: for … { …; for … { if c { continue L } }; REST }
+		uses := map[types.Object]int{}
+		for _, o := range info.Uses {
+			uses[o]++
+		}
+		astutil.Apply(fd.Body, func(c *astutil.Cursor) bool {
+			var body *ast.BlockStmt
+			switch l := c.Node().(type) {
+			case *ast.ForStmt:
+				body = l.Body
+			case *ast.RangeStmt:
+				body = l.Body
+			default:
+				return true
+			}
+			if _, labelled := c.Parent().(*ast.LabeledStmt); labelled {
+				return true
+			}
+			k := len(body.List)
+			if k < 3 {
+				return true
+			}
+			def, ok := body.List[k-3].(*ast.AssignStmt)
+			if !ok || def.Tok != token.DEFINE || len(def.Lhs) != 1 || len(def.Rhs) != 1 {
+				return true
+			}
+			lhs, ok := def.Lhs[0].(*ast.Ident)
+			if !ok || info.Defs[lhs] == nil || uses[info.Defs[lhs]] != 2 {
+				return true
+			}
+			if id, ok := def.Rhs[0].(*ast.Ident); !ok || id.Name != "false" {
+				return true
+			}
+			obj := info.Defs[lhs]
+			var inner *ast.BlockStmt
+			switch l := body.List[k-2].(type) {
+			case *ast.ForStmt:
+				inner = l.Body
+			case *ast.RangeStmt:
+				inner = l.Body
+			default:
+				return true
+			}
+			last, ok := body.List[k-1].(*ast.IfStmt)
+			if !ok || last.Else != nil || last.Init != nil {
+				return true
+			}
+			ue, ok := last.Cond.(*ast.UnaryExpr)
+			if !ok || ue.Op != token.NOT {
+				return true
+			}
+			if id, ok := ue.X.(*ast.Ident); !ok || info.Uses[id] != obj {
+				return true
+			}
+			// the only other mention: `found = true; break` closing an if directly in the inner loop
+			var hit *ast.IfStmt
+			for _, s2 := range inner.List {
+				is, ok := s2.(*ast.IfStmt)
+				if !ok || is.Else != nil || len(is.Body.List) < 2 {
+					continue
+				}
+				as, ok1 := is.Body.List[len(is.Body.List)-2].(*ast.AssignStmt)
+				br, ok2 := is.Body.List[len(is.Body.List)-1].(*ast.BranchStmt)
+				if !ok1 || !ok2 || br.Tok != token.BREAK || br.Label != nil || len(as.Lhs) != 1 || as.Tok != token.ASSIGN {
+					continue
+				}
+				if id, ok := as.Lhs[0].(*ast.Ident); ok && info.Uses[id] == obj {
+					if v, ok := as.Rhs[0].(*ast.Ident); ok && v.Name == "true" {
+						hit = is
+					}
+				}
+			}
+			if hit == nil {
+				return true
+			}
+			// REST must not declare what later iterations … (it is the end of the body: nothing follows)
+			constN++
+			label := fmt.Sprintf("next%d", constN)
+			hit.Body.List = append(hit.Body.List[:len(hit.Body.List)-2], &ast.BranchStmt{Tok: token.CONTINUE, Label: ast.NewIdent(label)})
+			nl := append([]ast.Stmt{}, body.List[:k-3]...)
+			nl = append(nl, body.List[k-2])
+			nl = append(nl, last.Body.List...)
+			body.List = nl
+			c.Replace(&ast.LabeledStmt{Label: ast.NewIdent(label), Stmt: c.Node().(ast.Stmt)})
+			n++
+			return false
+		}, nil)
+	case "joinvar":
+		// if c {…; return A} else {…; return B} closing a block  →  var r T; if c {…; r = A} else {…; r = B}; return r
+		if fd.Type.Results == nil || len(fd.Type.Results.List) != 1 || len(fd.Type.Results.List[0].Names) > 1 {
+			break
+		}
+		if len(fd.Type.Results.List[0].Names) == 1 {
+			break // named result: leave alone
+		}
+		rt := fd.Type.Results.List[0].Type
+		astutil.Apply(fd.Body, func(c *astutil.Cursor) bool {
+			if _, isLit := c.Node().(*ast.FuncLit); isLit {
+				return false
+			}
+			blk, ok := c.Node().(*ast.BlockStmt)
+			if !ok || len(blk.List) == 0 {
+				return true
+			}
+			is, ok := blk.List[len(blk.List)-1].(*ast.IfStmt)
+			if !ok {
+				return true
+			}
+			eb, ok := is.Else.(*ast.BlockStmt)
+			if !ok || len(is.Body.List) == 0 || len(eb.List) == 0 {
+				return true
+			}
+			r1, ok1 := is.Body.List[len(is.Body.List)-1].(*ast.ReturnStmt)
+			r2, ok2 := eb.List[len(eb.List)-1].(*ast.ReturnStmt)
+			if !ok1 || !ok2 || len(r1.Results) != 1 || len(r2.Results) != 1 {
+				return true
+			}
+			for _, r := range []ast.Expr{r1.Results[0], r2.Results[0]} {
+				if tv, ok := info.Types[r]; !ok || tv.Type == nil {
+					return true
+				} else if _, isTuple := tv.Type.(*types.Tuple); isTuple {
+					return true
+				}
+			}
+			constN++
+			name := fmt.Sprintf("res%d", constN)
+			is.Body.List[len(is.Body.List)-1] = &ast.AssignStmt{Lhs: []ast.Expr{ast.NewIdent(name)}, Tok: token.ASSIGN, Rhs: []ast.Expr{r1.Results[0]}}
+			eb.List[len(eb.List)-1] = &ast.AssignStmt{Lhs: []ast.Expr{ast.NewIdent(name)}, Tok: token.ASSIGN, Rhs: []ast.Expr{r2.Results[0]}}
+			decl := &ast.DeclStmt{Decl: &ast.GenDecl{Tok: token.VAR, Specs: []ast.Spec{&ast.ValueSpec{Names: []*ast.Ident{ast.NewIdent(name)}, Type: rt}}}}
+			blk.List = append(append(append([]ast.Stmt{}, blk.List[:len(blk.List)-1]...), decl, is), &ast.ReturnStmt{Results: []ast.Expr{ast.NewIdent(name)}})
+			n++
+			return false
+		}, nil)
 	default:
 		fmt.Fprintln(os.Stderr, "unknown transform", tr)
 		os.Exit(2)
